@@ -31,6 +31,22 @@ pub fn run(ctx: &mut Ctx) {
             ctx.count("loss_pattern", pat);
             let mut order: Vec<(bool, usize)> = go.iter().map(|i| (true, *i)).chain(gr.iter().map(|i| (false, *i))).collect();
             ctx.rng.shuffle(&mut order);
+            // rejected adds that are never retried: wrong-length shards for indexes that stay missing
+            // (the accessors must still answer for them as "not given")
+            if ctx.rng.chance(1, 3) {
+                let missing_o: Vec<usize> = (0..cfg.k).filter(|i| !go.contains(i)).collect();
+                let missing_r: Vec<usize> = (0..cfg.r).filter(|i| !gr.contains(i)).collect();
+                for _ in 0..ctx.rng.range(1, 2) {
+                    let wrong = if cfg.sb > 2 { cfg.sb - 2 } else { cfg.sb + 2 };
+                    if !missing_o.is_empty() && ctx.rng.chance(2, 3) {
+                        c.push(format!("D addo {} {}", ctx.rng.pick(&missing_o), to_hex(&ctx.rng.bytes(wrong))));
+                        ctx.count("rejected_add", "original");
+                    } else if !missing_r.is_empty() {
+                        c.push(format!("D addr {} {}", ctx.rng.pick(&missing_r), to_hex(&ctx.rng.bytes(wrong))));
+                        ctx.count("rejected_add", "recovery");
+                    }
+                }
+            }
             for (is_o, i) in order {
                 if is_o {
                     c.push(format!("D addo {} {}", i, to_hex(&originals[i])));
